@@ -32,6 +32,10 @@
 #include "vf/fork.hpp"
 
 #include "Basic/MathFunc.hpp"
+#include "Basic/OptCst.hpp"
+#include "Basic/OptCustom.hpp"
+#include "Enum/ECst.hpp"
+#include "Covariances/CovCalcMode.hpp"
 #include "Calculators/CalcMigrate.hpp"
 #include "Covariances/CovAniso.hpp"
 #include "Covariances/ACovAnisoList.hpp"
@@ -129,6 +133,8 @@ struct World
   VarioParam* vp = nullptr;
   int nmvn22 = 0, nmvn3 = 0;   // stand for the function-local statics of MathFunc.cpp (not addressable)
   int leftover = 0;            // columns found in a clone after a failed calculator (diagnostic)
+  bool oldstyle = true;        // stands for the file static Random_Old_Style of Law.cpp (not addressable)
+  double ntdec0 = 0;           // initial value of the option changed by the OptCst ops
 };
 static World* build_world()
 {
@@ -147,6 +153,7 @@ static World* build_world()
   w->U = NeighUnique::create();
   w->N = NeighMoving::create(false, 3, 2.5);
   w->vp = VarioParam::createOmniDirection(3, 1.);
+  w->ntdec0 = OptCst::query(ECst::NTDEC);
   return w;
 }
 
@@ -163,8 +170,19 @@ enum OpId
   OP_OPTIM_AA, OP_OPTIM_EE, OP_OPTIM_AB, OP_OPTIM_A3, OP_OPTIM_AE, OP_SYM_B, OP_SYM_E, OP_COV_AB, OP_COVSYM_A,
   OP_KRIG_U, OP_KRIG_N, OP_KRIG_3D, OP_KRIG_BLOCK, OP_KRIG_LC, OP_KRIGTEST, OP_XVALID_U, OP_XVALID_N,
   OP_SIMTUB_NC, OP_SIMTUB_C, OP_SIMTUB_FAIL, OP_DRAWS, OP_SEEDED_DRAWS, OP_VARIO, OP_MIGRATE, OP_GRIDCONV,
-  OP_DBG_KRIG, OP_NEIGH_SEL, OP_MVN3, OP_MVN22, NOPS
+  OP_DBG_KRIG, OP_NEIGH_SEL, OP_MVN3, OP_MVN22,
+  // --- widened alphabet -------------------------------------------------------------------------------------------
+  // requests with a CovCalcMode restricted to one basic structure
+  OP_OPTIM_AB_MODE0, OP_COV_AB_MODE0,
+  // CONFIG calls: they change the documented content / options the later requests legitimately depend on
+  CF_FILT0_ON, CF_FILT0_OFF, CF_FILT1_ON, CF_FILT1_OFF, CF_OPTIM0_OFF, CF_OPTIM0_ON, CF_RANGE_CHG, CF_RANGE_BACK, CF_SILL_CHG, CF_SILL_BACK,
+  CF_DRIFT_ADD, CF_DRIFT_DEL, CF_OPTCST_SET, CF_OPTCST_BACK, CF_OLDSTYLE_OFF, CF_OLDSTYLE_ON,
+  // do + request + undo in one call (the content is the same before and after)
+  PAIR_FILT0_OPTIM_AA, PAIR_FILT1_SYM_B, PAIR_OPTIMOFF_OPTIM_AB, PAIR_RANGE_OPTIM_AB, PAIR_DRIFT_KRIG_U, PAIR_OLDSTYLE_DRAWS, PAIR_OPTCUSTOM,
+  NOPS
 };
+static const int FIRST_NEW_OP = OP_OPTIM_AB_MODE0;
+static bool is_config(int op) { return op >= CF_FILT0_ON && op <= CF_OLDSTYLE_ON; }
 struct OpInfo { const char* name; const char* family; };
 static const OpInfo OPS[NOPS] = {
   {"evalCovMatrixOptim(A,A)", "optim"}, {"evalCovMatrixOptim(E,E)[all values undefined: fails]", "optim"},
@@ -178,7 +196,43 @@ static const OpInfo OPS[NOPS] = {
   {"law_gaussian x3 (not judged)", "draws"}, {"law_set_random_seed(1234)+law_gaussian x3", "draws"},
   {"Vario::computeFromDb(A)", "vario"}, {"migrate(A->G)", "migrate"}, {"Grid conversions on G and G2", "grid"},
   {"OptDbg::define+kriging+undefine", "kriging"}, {"NeighMoving attach+select x3", "neigh"},
-  {"mvndst(n=3)", "mvndst"}, {"mvndst(n=22)", "mvndst"}};
+  {"mvndst(n=3)", "mvndst"}, {"mvndst(n=22)", "mvndst"},
+  {"evalCovMatrixOptim(A,B,mode=structure 0 only)", "optim"}, {"evalCovMatrix(A,B,mode=structure 0 only)", "covmat"},
+  {"setCovaFiltered(0,true)", "config"}, {"setCovaFiltered(0,false)", "config"}, {"setCovaFiltered(1,true)", "config"}, {"setCovaFiltered(1,false)", "config"},
+  {"getCova(0)->setOptimEnabled(false)", "config"}, {"getCova(0)->setOptimEnabled(true)", "config"}, {"getCova(0)->setRanges({2,1})", "config"}, {"getCova(0)->setRanges({4,2})", "config"},
+  {"getCova(0)->setSill(0,0,3)", "config"}, {"getCova(0)->setSill(0,0,2)", "config"}, {"setDriftIRF(0)", "config"}, {"delAllDrifts()", "config"},
+  {"OptCst::define(NTDEC,8)", "config"}, {"OptCst::define(NTDEC,initial)", "config"}, {"law_set_old_style(false)", "config"}, {"law_set_old_style(true)", "config"},
+  {"filter(0) on + evalCovMatrixOptim(A,A) + off", "optim"}, {"filter(1) on + evalCovMatrixSymmetricOptim(B) + off", "optim"},
+  {"optim(0) off + evalCovMatrixOptim(A,B) + on", "optim"}, {"ranges {2,1} + evalCovMatrixOptim(A,B) + ranges {4,2}", "optim"},
+  {"setDriftIRF(0) + kriging(A->G,Unique) + delAllDrifts", "kriging"}, {"old style off + seeded draws + old style on", "draws"},
+  {"OptCustom define/undefine + OptCst define/restore", "options"}};
+// which documented option / content a new call touches (part of the finding key)
+static std::string option_kind(int op)
+{
+  switch (op)
+  {
+    case OP_OPTIM_AB_MODE0: case OP_COV_AB_MODE0: return "calcmode";
+    case CF_FILT0_ON: case CF_FILT0_OFF: case CF_FILT1_ON: case CF_FILT1_OFF: case PAIR_FILT0_OPTIM_AA: case PAIR_FILT1_SYM_B: return "filtered-structure";
+    case CF_OPTIM0_OFF: case CF_OPTIM0_ON: case PAIR_OPTIMOFF_OPTIM_AB: return "optim-switch";
+    case CF_RANGE_CHG: case CF_RANGE_BACK: case PAIR_RANGE_OPTIM_AB: return "ranges";
+    case CF_SILL_CHG: case CF_SILL_BACK: return "sill";
+    case CF_DRIFT_ADD: case CF_DRIFT_DEL: case PAIR_DRIFT_KRIG_U: return "drift";
+    case CF_OPTCST_SET: case CF_OPTCST_BACK: case PAIR_OPTCUSTOM: return "optcst";
+    case CF_OLDSTYLE_OFF: case CF_OLDSTYLE_ON: case PAIR_OLDSTYLE_DRAWS: return "old-style";
+  }
+  return "";
+}
+static int plain_request(int op)
+{
+  switch (op)
+  {
+    case PAIR_FILT0_OPTIM_AA: return OP_OPTIM_AA; case PAIR_FILT1_SYM_B: return OP_SYM_B; case PAIR_OPTIMOFF_OPTIM_AB: case PAIR_RANGE_OPTIM_AB: case OP_OPTIM_AB_MODE0: return OP_OPTIM_AB;
+    case PAIR_DRIFT_KRIG_U: return OP_KRIG_U; case PAIR_OLDSTYLE_DRAWS: return OP_SEEDED_DRAWS; case OP_COV_AB_MODE0: return OP_COV_AB;
+  }
+  return -1;
+}
+static bool q_is_new(int op) { return op >= FIRST_NEW_OP; }
+static bool is_cov_request(int op) { std::string f = OPS[op].family; return f == "optim" || f == "covmat"; }
 
 static Obs apply_op(World& w, int op)
 {
@@ -301,14 +355,49 @@ static Obs apply_op(World& w, int op)
       o.v.push_back(val); o.v.push_back(err);
       break;
     }
+    case OP_OPTIM_AB_MODE0: { CovCalcMode mode; mode.setActiveCovListFromOne(0); MatrixRectangular m = w.M->evalCovMatrixOptim(w.A, w.B, -1, -1, VectorInt(), VectorInt(), &mode); put_matrix(o, m); o.failed = m.size() == 0; break; }
+    case OP_COV_AB_MODE0: { CovCalcMode mode; mode.setActiveCovListFromOne(0); MatrixRectangular m = w.M->evalCovMatrix(w.A, w.B, -1, -1, VectorInt(), VectorInt(), &mode); put_matrix(o, m); o.failed = m.size() == 0; break; }
+    case CF_FILT0_ON: w.M->setCovaFiltered(0, true); break;
+    case CF_FILT0_OFF: w.M->setCovaFiltered(0, false); break;
+    case CF_FILT1_ON: w.M->setCovaFiltered(1, true); break;
+    case CF_FILT1_OFF: w.M->setCovaFiltered(1, false); break;
+    case CF_OPTIM0_OFF: w.M->getCova(0)->setOptimEnabled(false); break;
+    case CF_OPTIM0_ON: w.M->getCova(0)->setOptimEnabled(true); break;
+    case CF_RANGE_CHG: w.M->getCova(0)->setRanges({2., 1.}); break;
+    case CF_RANGE_BACK: w.M->getCova(0)->setRanges({4., 2.}); break;
+    case CF_SILL_CHG: w.M->getCova(0)->setSill(0, 0, 3.); break;
+    case CF_SILL_BACK: w.M->getCova(0)->setSill(0, 0, 2.); break;
+    case CF_DRIFT_ADD: w.M->setDriftIRF(0); break;
+    case CF_DRIFT_DEL: w.M->delAllDrifts(); break;
+    case CF_OPTCST_SET: OptCst::define(ECst::NTDEC, 8.); break;
+    case CF_OPTCST_BACK: OptCst::define(ECst::NTDEC, w.ntdec0); break;
+    case CF_OLDSTYLE_OFF: law_set_old_style(false); w.oldstyle = false; break;
+    case CF_OLDSTYLE_ON: law_set_old_style(true); w.oldstyle = true; break;
+    case PAIR_FILT0_OPTIM_AA: { bool f = w.M->getCovAnisoList()->_filtered[0]; w.M->setCovaFiltered(0, true); o = apply_op(w, OP_OPTIM_AA); w.M->setCovaFiltered(0, f); break; }
+    case PAIR_FILT1_SYM_B: { bool f = w.M->getCovAnisoList()->_filtered[1]; w.M->setCovaFiltered(1, true); o = apply_op(w, OP_SYM_B); w.M->setCovaFiltered(1, f); break; }
+    case PAIR_OPTIMOFF_OPTIM_AB: { bool f = w.M->getCova(0)->CovAniso::_optimEnabled; w.M->getCova(0)->setOptimEnabled(false); o = apply_op(w, OP_OPTIM_AB); w.M->getCova(0)->setOptimEnabled(f); break; }
+    case PAIR_RANGE_OPTIM_AB: { VectorDouble r = w.M->getCova(0)->getRanges(); w.M->getCova(0)->setRanges({2., 1.}); o = apply_op(w, OP_OPTIM_AB); w.M->getCova(0)->setRanges(r); break; }
+    case PAIR_DRIFT_KRIG_U:
+    {
+      if (w.M->getDriftNumber() > 0) { o = apply_op(w, OP_KRIG_U); break; }  // the drift is already there: nothing to do / undo
+      w.M->setDriftIRF(0); o = apply_op(w, OP_KRIG_U); w.M->delAllDrifts(); break;
+    }
+    case PAIR_OLDSTYLE_DRAWS: { bool f = w.oldstyle; law_set_old_style(false); o = apply_op(w, OP_SEEDED_DRAWS); law_set_old_style(f); break; }
+    case PAIR_OPTCUSTOM:
+    {
+      OptCustom::define("c10_probe", 3.); o.v.push_back(OptCustom::query("c10_probe", -1.)); OptCustom::undefine("c10_probe"); o.v.push_back(OptCustom::query("c10_probe", -1.));
+      double v0 = OptCst::query(ECst::NTCAR); OptCst::define(ECst::NTCAR, 17.); o.v.push_back(OptCst::query(ECst::NTCAR)); OptCst::define(ECst::NTCAR, v0);
+      break;
+    }
   }
+  if (is_config(op)) o.tag = "done";
   return o;
 }
 
 // ---------------------------------------------------------------------------------------------------------------
 // hidden state, by component
-enum Comp { C_RNG, C_OPTDBG, C_SPACE, C_COVCACHE_M, C_MODEL_M, C_COVCACHE_M3, C_MODEL_M3, C_NEIGH_U, C_NEIGH_N, C_DB_A, C_DB_B, C_DB_E, C_DB_A3, C_DB_G, C_DB_G2, C_MATHSTATICS, NCOMP };
-static const char* COMP_NAME[NCOMP] = {"rng", "optdbg", "defaultspace", "cov-cache(M)", "model(M)", "cov-cache(M3)", "model(M3)", "neighUnique", "neighMoving", "Db A", "Db B", "Db E", "Db A3", "grid G", "grid G2", "mathfunc-statics"};
+enum Comp { C_RNG, C_OPTDBG, C_SPACE, C_COVCACHE_M, C_MODEL_M, C_COVCACHE_M3, C_MODEL_M3, C_NEIGH_U, C_NEIGH_N, C_DB_A, C_DB_B, C_DB_E, C_DB_A3, C_DB_G, C_DB_G2, C_MATHSTATICS, C_OPTIONS, NCOMP };
+static const char* COMP_NAME[NCOMP] = {"rng", "optdbg", "defaultspace", "cov-cache(M)", "model(M)", "cov-cache(M3)", "model(M3)", "neighUnique", "neighMoving", "Db A", "Db B", "Db E", "Db A3", "grid G", "grid G2", "mathfunc-statics", "options(OptCst/OptCustom/old-style)"};
 
 static void hash_sp(Hash& h, const SpacePoint& p)
 {
@@ -396,6 +485,12 @@ static std::vector<uint64_t> components(const World& w)
   c[C_DB_A] = key_db(w.A); c[C_DB_B] = key_db(w.B); c[C_DB_E] = key_db(w.E); c[C_DB_A3] = key_db(w.A3);
   c[C_DB_G] = key_db(w.G); c[C_DB_G2] = key_db(w.G2);
   c[C_MATHSTATICS] = Hash().i(w.nmvn22).i(w.nmvn3).h;
+  {
+    Hash h; h.i(w.oldstyle);
+    for (auto& kv : OptCst::_cst) h.i(kv.first).d(kv.second);
+    for (auto& kv : OptCustom::_cst) h.s(kv.first).d(kv.second);
+    c[C_OPTIONS] = h.h;
+  }
   return c;
 }
 
@@ -460,38 +555,85 @@ static std::string hist_names(const History& h)
   return s;
 }
 
+// The reference of a history: the CONFIG calls of its prefix (they define the content the observed call legitimately depends
+// on), in the same order, WITHOUT the intermediate requests, followed by the observed call — all in a pristine child.
+static History reference_history(const History& h)
+{
+  History r;
+  for (size_t i = 0; i + 1 < h.size(); i++) if (is_config(h[i])) r.push_back(h[i]);
+  r.push_back(h.back());
+  return r;
+}
+// Bound on the widened alphabet: a history of 3 calls that uses a new (option / content changing) call must also contain a
+// covariance-matrix request — the calls whose caches these options feed; a history of 4 calls that uses a new call consists of
+// config calls and covariance-matrix requests only.  Histories made of the original 29 calls are enumerated completely.
+static bool in_bound(const History& h)
+{
+  if (h.size() < 3) return true;
+  bool hasNew = false, hasCov = false, onlyCovAndConfig = true;
+  for (int op : h)
+  {
+    if (op >= FIRST_NEW_OP) hasNew = true;
+    if (is_cov_request(op)) hasCov = true;
+    if (!(is_config(op) || (is_cov_request(op) && op < CF_FILT0_ON))) onlyCovAndConfig = false;  // compound do+request+undo calls are shortcuts for depth <= 3
+  }
+  if (!hasNew) return true;
+  if (h.size() == 3) return hasCov;
+  return hasCov && onlyCovAndConfig;  // depth 4: config calls interleaved with covariance-matrix requests only
+}
+
 VF_PART(hist)
 {
-  std::map<int, Obs> solo;
-  auto solo_of = [&](int op) -> const Obs& {
-    auto it = solo.find(op);
-    if (it != solo.end()) return it->second;
-    HistRun a = run_history({op}), b = run_history({op});
-    if (!a.ok || !b.ok || obs_cmp(a.last, b.last) != 0)
+  std::map<History, HistRun> refs;
+  auto ref_of = [&](const History& h) -> const HistRun& {
+    History r = reference_history(h);
+    auto it = refs.find(r);
+    if (it != refs.end()) return it->second;
+    HistRun a = run_history(r);
+    if (a.ok)
     {
-      fprintf(stderr, "harness error: the call '%s' alone in a pristine process is not usable as a reference (%s / %s)\n", OPS[op].name, a.problem.c_str(), b.problem.c_str());
+      HistRun b = run_history(r);
+      if (!b.ok || obs_cmp(a.last, b.last) != 0)
+      {
+        fprintf(stderr, "harness error: the reference history %s is not reproducible in a pristine process (%s)\n", hist_str(r).c_str(), b.problem.c_str());
+        exit(2);
+      }
+    }
+    else if (r.size() == 1)
+    {
+      fprintf(stderr, "harness error: the call '%s' alone in a pristine process is not usable as a reference (%s)\n", OPS[r[0]].name, a.problem.c_str());
       exit(2);
     }
-    return solo[op] = a.last;
+    return refs[r] = a;
   };
   int depth = C.thorough() ? 4 : 3;
   bfs(C, NOPS, depth, [&](const History& h) -> StepResult {
     StepResult sr;
+    if (!in_bound(h)) { sr.enabled = false; sr.expand = false; return sr; }
     HistRun R = run_history(h);
     if (h.empty()) { if (!R.ok) { fprintf(stderr, "harness error: cannot build the world: %s\n", R.problem.c_str()); exit(2); } sr.key = full_key(R.comps[0]); return sr; }
     int op = h.back();
-    const Obs& ref = solo_of(op);
+    const HistRun& REF = ref_of(h);
+    History rh = reference_history(h);
     std::string fam = OPS[op].family;
+    if (!REF.ok)
+    {
+      // the content itself (config calls + observed call, no other request) kills the process: not a history dependence
+      C.skip(); C.outcome("excluded:reference-dies:" + fam + ":" + REF.problem);
+      sr.key = R.ok ? full_key(R.comps.back()) : Hash().s(hist_str(h)).h; sr.expand = false;
+      return sr;
+    }
+    const Obs& ref = REF.last;
     if (!R.ok)
     {
-      // the same call works alone: dying after a history is a result that depends on the history
-      C.violation(fam + ":crash-after-history:" + R.problem, "after the history [" + hist_names(h) + "] the child process ended with " + R.problem + " whereas '" + OPS[op].name + "' alone in a fresh process succeeds", hist_str(h));
+      // the same call works on the same content without the earlier requests: dying after a history is a result that depends on it
+      C.violation(fam + ":crash-after-history:" + R.problem, "after the history [" + hist_names(h) + "] the child process ended with " + R.problem + " whereas [" + hist_names(rh) + "] in a fresh process succeeds", hist_str(h));
       C.outcome("child-died");
       sr.key = Hash().s(hist_str(h)).h; sr.expand = false;
       return sr;
     }
     sr.key = full_key(R.comps.back());
-    size_t n = h.size();
+    size_t n = h.size(), m = rh.size();
     // diagnostics (not judged): hidden state touched by a failed call
     if (R.last.failed)
     {
@@ -500,14 +642,16 @@ VF_PART(hist)
       C.outcome(ch.empty() ? "failed-call:hidden-state-unchanged" : "failed-call:hidden-state-changed:" + ch + ":" + fam);
     }
     if (R.leftover) C.outcome("failed-calculator-left-columns-in-its-Dbs(not judged here)");
-    // which components differed from the pristine world when the observed call started
+    // which components differ from the reference (same content, no earlier request) when the observed call starts
     std::vector<int> dirty;
-    for (int k = 0; k < NCOMP; k++) if (R.comps[n - 1][k] != R.comps[0][k]) dirty.push_back(k);
+    for (int k = 0; k < NCOMP; k++) if (R.comps[n - 1][k] != REF.comps[m - 1][k]) dirty.push_back(k);
     if (!dirty.empty()) C.nontrivial(Hash().s(hist_str(h)).h);
+    if (is_config(op)) { C.outcome("config-call"); return sr; }
     if (!R.last.judged) { C.skip(); C.outcome("not-judged:unseeded-draw"); return sr; }
     std::string why;
     int cmp = obs_cmp(R.last, ref, &why);
-    if (cmp == 0) C.outcome(dirty.empty() ? "same-as-fresh:state-was-pristine" : "same-as-fresh:state-was-dirty");
+    std::string cls = m > 1 ? ":content-changed-by-config-calls" : "";
+    if (cmp == 0) C.outcome((dirty.empty() ? "same-as-fresh:state-was-pristine" : "same-as-fresh:state-was-dirty") + cls);
     else if (cmp == 1) C.outcome("same-as-fresh-within-1e-12");
     else
     {
@@ -518,8 +662,8 @@ VF_PART(hist)
         fprintf(stderr, "harness error: history %s is not reproducible\n", hist_str(h).c_str());
         exit(2);
       }
-      // mechanism: shrink the prefix to a minimal one that still makes the observed call differ (greedy removal of one
-      // earlier call at a time), then name the hidden-state component that this minimal prefix left dirty
+      // mechanism: shrink the prefix to a minimal one that still makes the observed call differ from ITS reference (greedy
+      // removal of one earlier call at a time), then name the hidden-state component this minimal prefix left different
       History P(h.begin(), h.end() - 1);
       HistRun Rm = R;
       for (bool again = true; again && !P.empty();)
@@ -530,39 +674,61 @@ VF_PART(hist)
           History Q = P; Q.erase(Q.begin() + k);
           if (Q.empty()) continue;
           History Qo = Q; Qo.push_back(op);
+          const HistRun& Fq = ref_of(Qo);
+          if (!Fq.ok) continue;
           HistRun Rq = run_history(Qo);
-          if (Rq.ok && obs_cmp(Rq.last, ref) == 2) { P = Q; Rm = Rq; again = true; break; }
+          if (Rq.ok && obs_cmp(Rq.last, Fq.last) == 2) { P = Q; Rm = Rq; again = true; break; }
         }
       }
+      // an option carried by a compound / mode call of the minimal history may be incidental: replace such a call by its plain
+      // request wherever the difference persists, so that the finding key names only the options the mechanism needs
+      History Pfull = P; Pfull.push_back(op);
+      for (size_t k = 0; k < Pfull.size(); k++)
+      {
+        int inner = plain_request(Pfull[k]);
+        if (inner < 0) continue;
+        History T = Pfull; T[k] = inner;
+        const HistRun& Ft = ref_of(T);
+        if (!Ft.ok) continue;
+        HistRun Rt = run_history(T);
+        if (Rt.ok && obs_cmp(Rt.last, Ft.last) == 2) { Pfull = T; Rm = Rt; }
+      }
+      P.assign(Pfull.begin(), Pfull.end() - 1);
+      int opk = Pfull.back();
       std::string mech = "clean-state";
       {
-        size_t m = P.size();
-        static const int PRIO[] = {C_COVCACHE_M, C_COVCACHE_M3, C_MATHSTATICS, C_OPTDBG, C_SPACE, C_NEIGH_N, C_NEIGH_U, C_RNG, C_MODEL_M, C_MODEL_M3, C_DB_A, C_DB_B, C_DB_E, C_DB_A3, C_DB_G, C_DB_G2};
+        History Po = Pfull;
+        const HistRun& Fm = ref_of(Po);
+        size_t pm = P.size(), fm = Fm.comps.size() - 2;
+        static const int PRIO[] = {C_COVCACHE_M, C_COVCACHE_M3, C_MATHSTATICS, C_OPTDBG, C_SPACE, C_OPTIONS, C_NEIGH_N, C_NEIGH_U, C_RNG, C_MODEL_M, C_MODEL_M3, C_DB_A, C_DB_B, C_DB_E, C_DB_A3, C_DB_G, C_DB_G2};
         for (int k : PRIO)
-          if (Rm.comps[m][k] != Rm.comps[0][k])
+          if (Rm.comps[pm][k] != Fm.comps[fm][k])
           {
             int step = 0;
-            for (size_t q = 1; q <= m; q++) if (Rm.comps[q][k] != Rm.comps[q - 1][k]) step = (int)q;
+            for (size_t q = 1; q <= pm; q++) if (Rm.comps[q][k] != Rm.comps[q - 1][k]) step = (int)q;
             mech = (k == C_COVCACHE_M || k == C_COVCACHE_M3) ? "stale-cache" : COMP_NAME[k];
             mech += (step >= 1 && Rm.failed[step]) ? "-after-failure" : "-after-success";
+            // which kind of call left it: tells a leak of a plain request from one that needs an option (filter, disabled optimisation ...)
+            std::set<std::string> kinds;
+            for (int q : P) if (q >= FIRST_NEW_OP) kinds.insert(option_kind(q));
+            if (q_is_new(opk)) kinds.insert(option_kind(opk));
+            for (auto& kd : kinds) mech += ":with-" + kd;
             break;
           }
       }
-      why += "; minimal prefix with the same effect: [" + hist_names(P) + "]";
+      why += "; minimal history with the same effect: [" + hist_names(Pfull) + "]";
       C.outcome("DIFFERENT-from-fresh:" + fam + ":" + mech);
       sr.expand = false;  // a violating state is not extended: the last call is the one whose result depends on the history
       std::string ds;
       for (int k : dirty) ds += std::string(ds.empty() ? "" : ",") + COMP_NAME[k];
       C.violation(fam + ":" + mech,
-                  "'" + std::string(OPS[op].name) + "' after the history [" + hist_names(std::vector<int>(h.begin(), h.end() - 1)) + "] differs from the same call alone in a fresh process: " + why +
-                    "; hidden state not pristine when it started: " + ds, hist_str(h));
+                  "'" + std::string(OPS[op].name) + "' after the history [" + hist_names(std::vector<int>(h.begin(), h.end() - 1)) + "] differs from the reference [" + hist_names(rh) + "] run in a fresh process: " + why +
+                    "; hidden state differing from the reference when it started: " + ds, hist_str(h));
     }
-    if (Hash().s(hist_str(h)).h % 4001 == 0) C.sample("{\"history\":" + jstr(hist_names(h)) + ",\"last_failed\":" + (R.last.failed ? "true" : "false") + ",\"nvalues\":" + std::to_string(R.last.v.size()) + "}");
+    if (Hash().s(hist_str(h)).h % 4001 == 0) C.sample("{\"history\":" + jstr(hist_names(h)) + ",\"reference\":" + jstr(hist_names(rh)) + ",\"last_failed\":" + (R.last.failed ? "true" : "false") + ",\"nvalues\":" + std::to_string(R.last.v.size()) + "}");
     return sr;
   });
 }
-
-
 
 // A recorder with the Ctx interface, filled inside a forked child and applied to the real Ctx by the parent.
 struct Rep
